@@ -1,5 +1,6 @@
 """C01: radio link exactly-once in-order delivery under loss; link error exactly at N consecutive losses; safelink only if confirmed."""
 import itertools
+import threading
 import time
 
 from hypothesis import strategies as st
@@ -19,7 +20,9 @@ RULE = ('The real RadioDriver -> RadioManager -> _SharedRadio -> Crazyradio stac
         'for which send_packet returned True (order, no repeats); packets from receive_packet == packets the peer queued; error callback '
         'exactly at the N-th consecutive unacknowledged transmission; safelink bits/needs_resending iff a negotiation reply echoed. '
         'The negotiation is confirmed at attempt k for every k = 1..11 (enumerated); a step may hand the previous packet object over again. '
-        'Non-trivial = a loss while a non-null packet is in flight in that direction.')
+        'Sub "shared-dongle": 2-4 links on one dongle (free-running fake dongle routing by channel/address, per-link cyclic loss patterns), links '
+        'opened and closed while others keep running, one slow (1.3 s) but successful dongle transaction; every link must still deliver exactly once. '
+        'Non-trivial = a loss while a non-null packet is in flight in that direction / a link opened after another was closed / a slow transaction.')
 ASSUMPTIONS = ['peer model: alternating-bit in both directions as in the nRF51 ESB firmware, reset by the ff 05 01 service packet',
                'USB level failures (None/exception from the dongle) are outside the three stated outcomes and not generated',
                'application acts only while the radio thread is parked; timed queue waits inside the driver return at once',
@@ -261,8 +264,179 @@ def random_case(draw, _depth=0):
     return case
 
 
+# ---------------------------------------------------------------------------------------------------------------------
+# several links on one dongle (a swarm on one Crazyradio): links are opened and closed while others keep running
+
+def run_shared(case):
+    """ops: ('open', i) / ('close', i) / ('traffic', i, n_up, n_down); link i uses channel 10+i; free-running fake dongle that routes
+    every frame to the peer of the (channel, address) it was sent on and loses transmissions after a per-link cyclic pattern"""
+    import cflib.crtp.radiodriver as rd
+    from cflib.crtp.crtpstack import CRTPPacket
+    from vlib.fakeradio import FakeDongle
+    out = Outcome()
+    nl = case['links']
+    peers = {}
+    txn = {}
+
+    def answer(d, frame):
+        i = (d.channel or 0) - 10
+        peer = peers.get(i)
+        if peer is None:
+            return b'\x00'
+        k = txn[i] = txn.get(i, 0) + 1
+        st_ = case.get('stall')
+        if st_ and st_[0] == i and st_[1] == k:
+            # one slow dongle transaction (a USB transfer may take up to its 1 s timeout in each direction and still succeed)
+            time.sleep(st_[2])
+        pat = case['loss'][i % len(case['loss'])]
+        o = pat[k % len(pat)]
+        if o == 'u':
+            return b'\x00'
+        payload = peer.receive(frame)
+        if o == 'a':
+            return b'\x00'
+        return b'\x01' + payload
+
+    dongle = FakeDongle(answer=answer)
+    drivers = {}
+    submitted = {}
+    queued = {}
+    received = {}
+    seq = {'up': 0, 'down': 0}
+    errors = []
+    with RadioEnv(lambda: [dongle]):
+        rd.set_retries_before_disconnect(100)
+        try:
+            for op in case['ops']:
+                i = op[1]
+                if op[0] == 'open' and i not in drivers:
+                    peers[i] = SafelinkPeer(True)
+                    txn[i] = 0
+                    submitted[i], queued[i], received[i] = [], [], []
+                    drv = rd.RadioDriver()
+                    drv.connect('radio://0/%d/2M/E7E7E7E70%d' % (10 + i, i), None, lambda m, i=i: errors.append((i, m)))
+                    drivers[i] = drv
+                elif op[0] == 'close' and i in drivers:
+                    shared = rd.RadioManager._radios[0]
+                    before = len(shared._rsp_queues) if shared is not None else 0
+                    drv = drivers.pop(i)
+                    closer = threading.Thread(target=drv.close, daemon=True)
+                    closer.start()
+                    closer.join(10)
+                    if closer.is_alive():
+                        out.fail('radio:close-hangs:shared-dongle', 'links %d ops %r: close() of link %d does not return (its thread waits for an answer '
+                                 'that never comes)' % (nl, case['ops'], i))
+                        drv._thread._sp = True
+                        drv._radio._rsp_queue.put(None)
+                        closer.join(10)
+                        break
+                    del peers[i]
+                    # the STOP command is served by the shared radio thread: wait until it has been (the history is then the same every run)
+                    t0 = time.time()
+                    while shared is not None and len(shared._rsp_queues) >= before and time.time() - t0 < 10:
+                        time.sleep(0.001)
+                elif op[0] == 'traffic' and i in drivers:
+                    drv = drivers[i]
+                    for _ in range(op[3]):
+                        body = bytes([seq['down'] & 0xff, seq['down'] >> 8, i])
+                        peers[i].queue.append(bytes([(seq['down'] % 14) << 4 | (seq['down'] % 4)]) + body)
+                        queued[i].append((seq['down'] % 14, seq['down'] % 4, body))
+                        seq['down'] += 1
+                    for _ in range(op[2]):
+                        pk = CRTPPacket()
+                        pk.set_header(seq['up'] % 14, seq['up'] % 4)
+                        pk.data = bytes([seq['up'] & 0xff, seq['up'] >> 8, i])
+                        if drv.send_packet(pk):
+                            submitted[i].append((pk.header & 0xF3, bytes(pk.data)))
+                        seq['up'] += 1
+                    deadline = time.time() + 10
+                    while time.time() < deadline:
+                        p = drv.receive_packet(0.01)
+                        if p is not None and p.port != 15:
+                            received[i].append((p.port, p.channel, bytes(p.data)))
+                        acc = [(h, dd) for h, dd in peers[i].accepted if (h & 0xF0) != 0xF0]
+                        if len(acc) >= len(submitted[i]) and len(received[i]) >= len(queued[i]) and drv.out_queue.empty():
+                            break
+                    # a little more traffic on every other open link: nothing of it may be disturbed by what happened to link i
+                    for j, dj in drivers.items():
+                        accj = [(h, dd) for h, dd in peers[j].accepted if (h & 0xF0) != 0xF0]
+                        desc = 'links %d ops %r loss %r: link %d' % (nl, case['ops'], case['loss'], j)
+                        if j == i:
+                            if accj != submitted[j]:
+                                kind = 'duplicate' if len(accj) > len(submitted[j]) else 'lost' if len(accj) < len(submitted[j]) else 'order'
+                                out.fail('uplink:' + kind + ':shared-dongle', '%s: submitted %r, peer accepted %r' % (
+                                    desc, [dd.hex() for h, dd in submitted[j]], [dd.hex() for h, dd in accj]))
+                            if received[j] != queued[j]:
+                                kind = 'duplicate' if len(received[j]) > len(queued[j]) else 'lost' if len(received[j]) < len(queued[j]) else 'order'
+                                out.fail('downlink:' + kind + ':shared-dongle', '%s: peer queued %r, application received %r' % (
+                                    desc, [c.hex() for a, b, c in queued[j]], [c.hex() for a, b, c in received[j]]))
+                    if out.violations:
+                        break
+            if errors:
+                out.fail('linkerror:count:shared-dongle', 'links %d ops %r loss %r: link error reported %r although no loss streak reaches the limit' % (
+                    nl, case['ops'], case['loss'], errors[:2]))
+        finally:
+            for drv in drivers.values():
+                try:
+                    # a driver thread left waiting for an answer that was handed to another link would make close() wait for ever
+                    drv._thread._sp = True
+                    drv._radio._rsp_queue.put(None)
+                    drv.close()
+                except Exception:  # noqa
+                    pass
+    closes_between = any(a[0] == 'close' for a in case['ops']) and sum(1 for a in case['ops'] if a[0] == 'open') > 2
+    out.nontrivial = closes_between
+    out.nontrivial = out.nontrivial or bool(case.get('stall'))
+    out.feat('open-after-close-with-others-running' if closes_between else 'no-reopen', 'links-%d' % nl, 'slow-transaction' if case.get('stall') else 'prompt-dongle')
+    return out
+
+
+def shared_cases(tier):
+    lossless = [['o']]
+    lossy = [['o', 'o', 'u', 'o', 'a'], ['o', 'a', 'o', 'o', 'u', 'u', 'o']]
+    t = lambda i: ('traffic', i, 3, 3)   # noqa
+    hists = [
+        [('open', 0), ('open', 1), t(0), t(1), ('close', 0), ('open', 2), t(1), t(2), t(1)],
+        [('open', 0), ('open', 1), ('open', 2), t(2), ('close', 1), ('open', 1), t(2), t(1), t(0)],
+        [('open', 0), ('open', 1), ('close', 0), ('open', 0), ('close', 1), ('open', 1), t(0), t(1)],
+        [('open', 0), t(0), ('close', 0), ('open', 1), t(1), ('open', 0), t(0), t(1)],
+        [('open', 0), ('open', 1), ('open', 2), ('close', 0), ('close', 1), ('open', 0), t(2), t(0), ('open', 1), t(1), t(2)],
+    ]
+    for h in hists:
+        for loss in (lossless, lossy):
+            yield {'links': 3, 'ops': h, 'loss': loss}
+    # a single link whose k-th dongle transaction is slow but succeeds: the answer must still be attributed to that transmission
+    yield {'links': 1, 'ops': [('open', 0), t(0), t(0), t(0)], 'loss': lossless, 'stall': (0, 14, 1.3)}
+    yield {'links': 2, 'ops': [('open', 0), ('open', 1), t(0), t(1), t(0), t(1)], 'loss': lossy, 'stall': (1, 16, 1.3)}
+
+
+@st.composite
+def shared_case(draw):
+    nl = draw(st.integers(2, 4))
+    ops = []
+    open_ = set()
+    for _ in range(draw(st.integers(4, 14))):
+        i = draw(st.integers(0, nl - 1))
+        kind = draw(st.sampled_from(['toggle', 'toggle', 'traffic']))
+        if kind == 'toggle' or i not in open_:
+            if i in open_:
+                ops.append(('close', i))
+                open_.discard(i)
+            else:
+                ops.append(('open', i))
+                open_.add(i)
+        else:
+            ops.append(('traffic', i, draw(st.integers(0, 4)), draw(st.integers(0, 4))))
+    for i in sorted(open_):
+        ops.append(('traffic', i, 2, 2))
+    loss = draw(st.lists(st.lists(st.sampled_from(['o', 'o', 'o', 'u', 'a']), min_size=1, max_size=7).map(lambda l: ['o'] + l), min_size=1, max_size=3))
+    return {'links': nl, 'ops': ops, 'loss': loss}
+
+
 def subchecks(tier):
     return [
         Sub('exhaustive', run_link, cases=exhaustive_cases, distinct_by_construction=True),
         Sub('random', run_link, strategy=random_case(), examples={'quick': 400, 'thorough': 20000}),
+        Sub('shared-dongle', run_shared, cases=shared_cases, distinct_by_construction=True),
+        Sub('shared-dongle-random', run_shared, strategy=shared_case(), examples={'quick': 24, 'thorough': 600}),
     ]
